@@ -7,7 +7,7 @@ src = os.environ.get("SEED_WT", "/tmp/wt") + "/%s/SEED" % wid
 dst = "/verif/seeded/%s" % name
 os.makedirs(dst, exist_ok=True)
 for f in os.listdir(src):
-    if os.path.isfile(os.path.join(src, f)) and os.path.getsize(os.path.join(src, f)) < 400000 and not f.endswith((".log", ".o")) and f not in ("demo", "a.out"):
+    if os.path.isfile(os.path.join(src, f)) and os.path.getsize(os.path.join(src, f)) < 400000 and not f.endswith((".log", ".o")) and f not in ("demo", "a.out", "demo_bin", "demo.bin"):
         shutil.copy(os.path.join(src, f), dst)
 meta = dict({"property": prop, "source": "independent sub-agent, given only the property text and a scratch worktree"}, **meta)
 json.dump(meta, open(os.path.join(dst, "meta.json"), "w"), indent=1)
